@@ -450,6 +450,44 @@ def analyze(kit):
             (int(a), int(b), int(c)) for a, b, c, mk in zip(inst.items.x_len, inst.items.y_len, inst.items.z_len, inst.items_mask) if mk and a > 0 and b > 0 and c > 0):
         kit.fail(["C10"], "CSV round trip of a generated instance changed the items", dict(cfg="csv-from-random", op="csv"), dict(seed=kit.seed))
 
+    # ---- CSVGenerator parser against the model's csv_items: the example of the class docstring (the literal csv_doc_rows of
+    #      Model/BinPack.v, C10_BinPack_csv_docstring_instance) and rows with quantities 0 / 1 / several
+    import csv as _csv
+    doc = G.CSVGenerator.__doc__.splitlines()
+    hdr = [i for i, ln in enumerate(doc) if ln.strip() == ",".join(G.CSV_COLUMNS)]
+    doc_rows = []
+    for ln in doc[hdr[-1] + 1:] if hdr else []:
+        parts = ln.strip().split(",")
+        if len(parts) != 5:
+            break
+        doc_rows.append((parts[0],) + tuple(int(x) for x in parts[1:]))
+    if not doc_rows:
+        kit.fail(["C10"], "could not find the example instance in CSVGenerator's docstring", dict(cfg="csv-docstring", op="csv-doc"), dict(seed=kit.seed))
+    q_rows = [("a", 7, 3, 2, 1), ("b", 5, 5, 5, 0), ("c", 1, 2, 3, 4), ("d", 9, 9, 9, 2)]
+    for tag, rows in (("csv-docstring", doc_rows), ("csv-quantities", q_rows)):
+        if not rows:
+            continue
+        with tempfile.TemporaryDirectory() as td:
+            path = os.path.join(td, "rows.csv")
+            with open(path, "w", newline="") as fh:
+                wr = _csv.writer(fh)
+                wr.writerow(G.CSV_COLUMNS)
+                for r in rows:
+                    wr.writerow(r)
+            gcsv = G.CSVGenerator(path, max_num_ems=10)
+        st = to_np(gcsv(jax.random.PRNGKey(1)))
+        its = np.stack([np.asarray(st.items.x_len), np.asarray(st.items.y_len), np.asarray(st.items.z_len)], 1)
+        flags_ok = (bool(np.asarray(st.items_mask).all()) and not np.asarray(st.items_placed).any() and gcsv.max_num_items == len(its)
+                    and np.asarray(st.ems_mask).tolist() == [True] + [False] * 9
+                    and not np.asarray(st.items_location.x).any() and not np.asarray(st.items_location.y).any() and not np.asarray(st.items_location.z).any())
+        if not flags_ok:
+            kit.fail(["C10"], "CSVGenerator: reset instance is not (all items masked, none placed, one EMS)", dict(cfg=tag, op="csv-flags"), dict(rows=rows, seed=kit.seed))
+        calls.append(("bin_pack_csv_io", [len(rows)] + [int(x) for r in rows for x in r[1:]]))
+        metas.append(("csv", None, None, [len(its)] + ints(its), dict(cfg=tag, rows=[list(r[1:]) for r in rows]), None))
+        if tag == "csv-docstring":
+            calls.append(("bin_pack_csvdoc_io", [0]))
+            metas.append(("csv", None, None, [len(rows)] + [int(x) for r in rows for x in r[1:]] + [len(its)] + ints(its), dict(cfg="csv-docstring-literal", rows=[list(r[1:]) for r in rows]), None))
+
     # ---- float32 volume rounding of the model against numpy
     for _ in range(300):
         vol_cases.append(tuple(int(x) for x in kit.rng.integers(1, 6000, 3)))
@@ -567,6 +605,13 @@ def analyze(kit):
             res["C10"].distinct.add((m["cfg"], "literal"))
             if got != exp:
                 kit.fail(["C10"], "literal instance: solution is not an exact feasible tiling", dict(cfg=m["cfg"], op="tiling"), dict(m, model=got, seed=kit.seed))
+        elif kind == "csv":
+            res["C10"].evaluations += 1
+            res["C10"].distinct.add((m["cfg"], "csv"))
+            res["C10"].count("csv-instances-parsed")
+            if got != exp:
+                kit.fail(["C10"], "CSVGenerator: parsed items differ from the model's csv_items of the rows", dict(cfg=m["cfg"], op="csv-items"),
+                         dict(m, model=got, impl=exp, seed=kit.seed))
         elif kind == "vol":
             res["C12"].count("float32-volume-roundings-checked", len(exp))
             if got != exp:
